@@ -107,6 +107,45 @@ func twoListenersMain(out, sum string, seed int64, norec bool, n int) {
 			}
 		}(j)
 	}
+	// race-detector runs only (nothing but race reports is taken from them): listener Y also carries VALID datagrams of one
+	// client towards a second target with an IP-literal header, so that both Handle loops go through the whole path - key
+	// search, validatePacket, NAT table, write - at the same time and whatever those steps share is watched by the detector
+	if norec {
+		tgt2, err := listenUDP("udp4", "127.0.0.1:0")
+		if err != nil {
+			hx.Fatal("target 2: %v", err)
+		}
+		defer tgt2.Close()
+		go func() {
+			b := make([]byte, 2048)
+			for {
+				if _, _, err := tgt2.ReadFromUDP(b); err != nil {
+					return
+				}
+			}
+		}()
+		hdr2 := socksAddr(tgt2.LocalAddr().(*net.UDPAddr))
+		jw.Add(1)
+		go func() {
+			defer jw.Done()
+			c, err := listenUDP("udp4", "127.0.0.1:0")
+			if err != nil {
+				return
+			}
+			defer c.Close()
+			key := kr.byTok[1].key
+			pr := rand.New(rand.NewSource(seed*37 + 5))
+			for i := 0; !stop.Load(); i++ {
+				pt := append(append([]byte{}, hdr2...), make([]byte, 100+pr.Intn(100))...)
+				buf := make([]byte, key.SaltSize()+len(pt)+key.TagSize())
+				pkt, _ := shadowsocks.Pack(buf, pt, key)
+				c.WriteToUDP(pkt, ly.LocalAddr().(*net.UDPAddr))
+				if i%16 == 0 {
+					time.Sleep(100 * time.Microsecond)
+				}
+			}
+		}()
+	}
 	time.Sleep(20 * time.Millisecond)
 	// first datagrams of n fresh client addresses on listener X
 	type sentD struct {
